@@ -40,6 +40,9 @@ TIMEOUT = {"quick": 1500, "thorough": 10800}
 NSLICE = {"quick": 8, "thorough": 16}
 NPAIR = {"quick": 320, "thorough": 8000}
 AMP_LIMIT = 1e6
+# multiple of the first-order round-off estimate (3 perturbed copies sample the spread; a
+# factor 200 left the unchanged tree at 0.3 of the tolerance and once at 5)
+SAFETY = 1000
 DELTA = 1e-13
 
 FORMS_SRC = ["phys-drm", "cb-pv", "modal-drm", "cb-drm", "phys-drm", "cb-pv",
@@ -466,8 +469,8 @@ class PairRef:
                     continue
                 for (Sp, Lp) in copies:
                     try:
-                        Asp = self.As[:, j] * (1 + DELTA * rp.uniform(-1, 1, r))
-                        Wp = Wj * (1 + DELTA * rp.uniform(-1, 1))
+                        Asp = self.As[:, j] * (1 + DELTA * rp.choice([-1.0, 1.0], r))
+                        Wp = Wj * (1 + DELTA * rp.choice([-1.0, 1.0]))   # full size: one scalar, no averaging
                         S1, L1, A1, F1 = _nt_eval(np, nt, Sp, Lp, Asp, Wp)
                     except np.linalg.LinAlgError:
                         sA[:, j] = sF[:, j] = np.inf
@@ -538,7 +541,7 @@ class PairRef:
         scale = np.abs(ref).max(axis=0)
         sg = np.where(np.isfinite(sig), sig, np.inf).max(axis=0)
         with np.errstate(all="ignore"):
-            tol = 200 * (sg / DELTA) * 2.220446049250313e-16 + 1e-13 * scale
+            tol = SAFETY * (sg / DELTA) * 2.220446049250313e-16 + 1e-13 * scale
             amp = np.where(scale > 0, sg / (DELTA * scale), np.where(sg > 0, np.inf, 0.0))
         amp = np.where(np.isfinite(amp), amp, np.inf)
         return tol, amp
@@ -548,7 +551,7 @@ class PairRef:
         scale = np.abs(ref).max(axis=(0, 2))
         sg = np.where(np.isfinite(sig), sig, np.inf).max(axis=(0, 2))
         with np.errstate(all="ignore"):
-            tol = 200 * (sg / DELTA) * 2.220446049250313e-16 + 1e-13 * scale
+            tol = SAFETY * (sg / DELTA) * 2.220446049250313e-16 + 1e-13 * scale
             amp = np.where(scale > 0, sg / (DELTA * scale), np.where(sg > 0, np.inf, 0.0))
         amp = np.where(np.isfinite(amp), amp, np.inf)
         return tol, amp
